@@ -220,7 +220,7 @@ class Topology(ABC):
         """
         if name not in self.nodes.keys():
             raise TopologyException(f'Node {name} is not in this topology.')
-        for i in self.nodes[name].interface_list:
+        for i in self._with_sub_interfaces(self.nodes[name].interface_list):
             # disconnect if connected to a network service
             peers = i.get_peers(itype=InterfaceType.ServicePort)
             if peers:
@@ -232,6 +232,18 @@ class Topology(ABC):
 
         self.graph_model.remove_network_node_with_components_nss_cps_and_links(
             node_id=self._get_node_by_name(name=name).node_id)
+
+    @staticmethod
+    def _with_sub_interfaces(interfaces) -> List[Interface]:
+        """
+        Return the interfaces together with their sub-interfaces (which can be
+        connected to network services on their own)
+        """
+        ret = list()
+        for i in interfaces:
+            ret.append(i)
+            ret.extend(i.interface_list)
+        return ret
 
     def add_facility(self, *, name: str, node_id: str = None, site: str,
                      nstype: ServiceType = ServiceType.VLAN,
@@ -280,7 +292,7 @@ class Topology(ABC):
         if fac.type != NodeType.Facility:
             raise TopologyException(f'{name} is not a Facility node, cannot remove.')
 
-        for i in self.facilities[name].interface_list:
+        for i in self._with_sub_interfaces(self.facilities[name].interface_list):
             # disconnect if connected to a network service
             peers = i.get_peers(itype=InterfaceType.ServicePort)
             if peers:
